@@ -364,7 +364,7 @@ func c16Run(t *rapid.T, st *Stats) {
 			mc.checkAll(t)
 		case "register-bad-shape":
 			name := rapid.SampledFrom(c16DynNames).Draw(t, "name")
-			shape := rapid.SampledFrom([]string{"no-profile-field", "no-json-tag"}).Draw(t, "shape")
+			shape := rapid.SampledFrom([]string{"no-profile-field", "no-json-tag", "lookalike-keys"}).Draw(t, "shape")
 			mc.log("Register(%s as %s)", name[len(name)-5:], shape)
 			if err := psatoken.RegisterProfile(dynProfile{name, shape}); err == nil {
 				mc.fail(t, "registering a profile whose claims type has no identifiable profile field (%s) succeeded", shape)
